@@ -76,6 +76,9 @@ def entry_ops(t):
         ("build.all_texts_noauth", b(path=t, query_string=t, fragment=t)),
         ("build.fragment", b(scheme="http", host="h", fragment=t)), ("build.authority_user", b(scheme="http", authority=f"{t}@h")),
         ("build.authority_password", b(scheme="http", authority=f"u:{t}@h:81")),
+        # authorities WITHOUT a host (userinfo and/or a port only), with and without a scheme
+        ("build.authority_user_nohost", b(scheme="foo", authority=f"{t}@", path="/x")), ("build.authority_userpw_nohost_port", b(scheme="foo", authority=f"{t}:{t}@:8080")),
+        ("build.authority_pw_nohost_noscheme", b(authority=f"u:{t}@")), ("build.authority_user_nohost_noscheme_port", b(authority=f"{t}@:81", path="/p")),
     ]
     m = lambda name, *args, base=B: {"op": "mod", "base": base, "m": name, "args": list(args)}
     out += [
